@@ -264,12 +264,79 @@ func (g *ackqGen) acked() {
 	g.flight = g.flight[k:]
 }
 
+// churn drives the ring through "grow while wrapped": fill to capacity, release a few from the
+// head (so head != 0), fill again until the tail has wrapped and the ring is full, register one
+// more (growth with head != 0), then acknowledge entries on both sides of the old wrap point.
+func (g *ackqGen) churn(budget int) int {
+	r := g.r
+	used := 0
+	next := 1
+	var fl []int // ids in flight, oldest first (exact: this shape only uses terminal acks in order)
+	capacity := 16
+	reg := func() {
+		g.tag++
+		q := 1 + r.Intn(2)
+		g.emit("wait pub %d %d %s %d", q, next, hexOf(pubBytes(q, next, r)), g.tag)
+		fl = append(fl, next)
+		next++
+		used++
+	}
+	term := func(id int) {
+		t := pick(r, []message.Type{message.PUBACK, message.PUBCOMP, message.PUBREL})
+		g.emit("ack %d %d %s", t, id, hexOf(ackBytes(t, id)))
+		used++
+	}
+	for rounds := 0; rounds < 3 && used < budget; rounds++ {
+		for len(fl) < capacity {
+			reg()
+		}
+		k := 1 + r.Intn(capacity-1)
+		for i := 0; i < k; i++ {
+			term(fl[i])
+		}
+		g.emit("acked")
+		used++
+		fl = fl[k:]
+		for len(fl) < capacity {
+			reg()
+		}
+		reg() // grows while head != 0 and the live window wraps
+		capacity *= 2
+		// acknowledge across the old wrap point, in and out of order, and collect
+		for i := 0; i < 6 && len(fl) > 0; i++ {
+			j := r.Intn(len(fl))
+			if r.Intn(2) == 0 {
+				j = 0
+			}
+			term(fl[j])
+			if r.Intn(3) == 0 {
+				g.emit("acked")
+				used++
+			}
+		}
+		g.emit("acked")
+		used++
+		// the generator does not track which were released after out-of-order acks: drain in order
+		for _, id := range fl {
+			term(id)
+		}
+		g.emit("acked")
+		used++
+		fl = nil
+	}
+	return used
+}
+
 func genAckq(seed int64, n int, tier string, w *bufio.Writer) {
 	r := rand.New(rand.NewSource(seed))
 	g := &ackqGen{r: r, w: w}
 	for done := 0; done < n; {
 		g.flight = nil
 		g.emit("reset")
+		if r.Intn(4) == 0 {
+			done += g.churn(n - done)
+			continue
+		}
 		// episode shape: small id set (collisions), or burst (growth), or mixed
 		shape := r.Intn(3)
 		g.idmax = []int{4, 2000, 65535}[shape]
